@@ -46,7 +46,7 @@ LEVEL = "exploration"
 RULE = (
     "case kind 'set': one seeded point set (N 1..40, dim 1..5; kinds: integer grid 1..4 values per axis, "
     "grid with exact duplicate rows, continuous, continuous with duplicate rows, partly rounded columns, "
-    "chains, antichains, one column repeated; int or float dtype) probed by pareto_efficient and 6..10 "
+    "chains, antichains, one column repeated; int or float dtype) probed by pareto_efficient and 7..9 "
     "nondominated_sort calls (dim None / each kind of dim, max_items around N and around cumulative layer "
     "sizes, flatten on/off). Distinct = digest of (N, D, layer sizes, duplicate count, probes); non-trivial = "
     "N >= 2 and (>= 2 layers or tied coordinates). case kind 'moasha': one seeded schedule (1..5 metrics, "
